@@ -162,8 +162,8 @@ def run(ctx):
         if key in seen or inst['nuser'] == 0 or (inst['X'] is not None and inst['X']['N'] != inst['n']):
             continue
         seen.add(key)
-        for k in range(6):
-            direction = None if k == 0 else [rng.choice([-1.0, 1.0, 0.5, -2.0]) for _ in range(inst['nuser'])]
+        for k in range(16):
+            direction = None if k == 0 else [rng.choice([-1.0, 1.0, 0.5, -2.0, 0.0]) for _ in range(inst['nuser'])]
             try:
                 why = audit_instance(ctx, rng, inst, s, direction)
             except Exception as e:  # noqa: BLE001
